@@ -33,7 +33,7 @@ PROP = dict(
                "patterns, function values, and the absence of hangs; each fuzzed case runs in a child process with a 10 s limit (40 s on "
                "the one retry), 2 GiB GOMEMLIMIT, 8 GiB address space and a 256 MB goroutine stack. Open findings are reported as "
                "KNOWN-FINDING lines: KF-pinned-panics, KF-setpattern-panic, KF-function-as-set, KF-relation-bucket, KF-deep-nesting, "
-               "KF-grammar-parse, KF-huge-repeat. Besides the sampled streams every run "
+               "KF-grammar-parse. Besides the sampled streams every run "
                "enumerates two grids: every safe stdlib function x parameter position x 44 boundary arguments (x 5 typical fillers), "
                "and every operator x 20 empty/degenerate operands on either side (about 22 000 cases).",
     design_ref="DESIGN.md section 6, C10",
